@@ -360,6 +360,93 @@ def rule_r9(facts, col, rule_id="C03.R9"):
                 col.ok(rule_id, key, body.where(bb), "state read and written under the same guard (%d state reads)" % nreads)
 
 
+_RB = {"stream::ReadStream::read_buf": "R", "stream::WriteStream::write_buf": "W"}
+
+
+def rule_r12(facts, col, rule_id="C03.R12"):
+    """one live window per stream end: where a body asks a stream for a window (read_buf / write_buf on a field of self), no
+    window obtained earlier from the same end is still alive - it has been committed/consumed by value, handed on, or dropped
+    on every path in between.  (Every window holds a handle on the shared ring; the handle-count ceiling of R7 is budgeted
+    for one per side, so a second one makes the block itself or its peer fail with 'refcount 4' - depending only on when the
+    peer's own window happens to exist.)  Liveness follows the window through its holders (`Result` -> `?` -> `let o`);
+    dropping or moving out of the last holder ends it."""
+    from ..mir import self_field_path
+    for body in facts.bodies:
+        calls = []
+        for bb, t in body.calls():
+            q = t["f"].get("q")
+            if q in _RB and t["args"]:
+                fp = self_field_path(body.operand_expr(t["args"][0]))
+                if fp:
+                    calls.append((bb, ".".join(fp), _RB[q]))
+        if not calls:
+            continue
+        holders = {}
+        for l, loc in enumerate(body.locals):
+            ty = loc["ty"]
+            if ("circular_buffer::BufferWriter<" not in ty and "circular_buffer::BufferReader<" not in ty) or ty.startswith("&"):
+                continue
+            org = None
+            for x in walk(body.local_expr(l)):
+                if x.k == "call" and x.q in _RB and getattr(x, "bb", None) is not None:
+                    org = x.bb
+                    break
+            if org is not None:
+                holders.setdefault(org, set()).add(l)
+        for k_, (cbb, fld, kind) in enumerate(calls):
+            key = "%s:%s(%s)#%d" % (body.q, "read_buf" if kind == "R" else "write_buf", fld, k_)
+            hs = holders.get(cbb, set())
+            start = body.term(cbb).get("t")
+            if not hs or start is None:
+                col.silent(rule_id, key, body.where(cbb), "window holder not visible")
+                continue
+            nonleaf = set()
+            for l2 in hs:
+                for dbb, si, k, payload in body.defs().get(l2, []):
+                    ops = []
+                    if k == "rv" and payload["k"] in ("use", "cast"):
+                        ops = [payload["a"]]
+                    elif k == "rv" and payload["k"] == "agg":
+                        ops = payload["ops"]
+                    elif k == "call":
+                        ops = payload["args"]
+                    for o in ops:
+                        p = o.get("m")
+                        if p is not None and p["l"] in hs and p["l"] != l2:
+                            nonleaf.add(p["l"])
+            leaves = hs - nonleaf
+            kills = set()
+            for bb in body.reachable(0):
+                blk = body.blocks[bb]
+                t = blk["term"]
+                if t["k"] == "drop" and t["p"]["l"] in leaves:
+                    kills.add(bb)
+                ops = []
+                for st in blk["stmts"]:
+                    if st["k"] == "assign":
+                        rv = st["rv"]
+                        if rv["k"] in ("use", "cast"):
+                            ops.append((rv["a"], st["dst"]["l"]))
+                        elif rv["k"] == "agg":
+                            ops += [(o, st["dst"]["l"]) for o in rv["ops"]]
+                if t["k"] == "call":
+                    ops += [(a, t["dst"]["l"] if t.get("dst") else None) for a in t["args"]]
+                for o, dst in ops:
+                    p = o.get("m")
+                    if p is not None and p["l"] in leaves and dst not in hs:
+                        kills.add(bb)
+            r = body.reachable(start, avoid=kills) if start not in kills else set()
+            again = [c2 for c2, f2, k2 in calls if f2 == fld and k2 == kind and c2 in r]
+            if again:
+                col.bad(rule_id, key, body.where(again[0]),
+                        "a second window is requested from self.%s (%s) while the one obtained at %s can still be alive: the block "
+                        "holds two handles on that ring, the stream's handle-count guard is budgeted for one per side, and the block "
+                        "(or, innocently, its peer) fails with 'refcount 4' whenever the peer's window exists at the same moment - "
+                        "never in a single-threaded run" % (fld, "read_buf" if kind == "R" else "write_buf", body.where(cbb)), {})
+            else:
+                col.ok(rule_id, key, body.where(cbb), "the window is consumed/committed, handed on or dropped before the next request on this end")
+
+
 def run(ctx):
     facts = ctx.facts("default")
     rule_r1(facts, ctx)
@@ -369,12 +456,19 @@ def run(ctx):
     rule_r5(facts, ctx)
     rule_r6(facts, ctx)
     rule_r7(facts, ctx)
+    rule_r12(facts, ctx)
+    ctx.floor("C03.R12", 80, "read_buf()/write_buf() requests of the crate's bodies")
     rule_r9(facts, ctx)
     ctx.floor("C03.R9", 4, "writes of rpos/used (consume) and wpos/used (produce)")
     from . import c02
     c02.rule_r7(facts, ctx, rule_id="C03.R10")
     ctx.floor("C03.R10", 1, "atomic commit: tags under the lock acquisition that advances wpos")
     c01.rule_r4(facts, ctx, rule_id="C03.R8")
+    from . import c19
+    # a release that is not checked against the fill level (`consume_all()`: rpos = wpos, used = 0) frees samples the other side
+    # committed after the window was taken: C01's refusal rule is a necessary condition of the sharing protocol too
+    c01.rule_r1(facts, c19._Retag(ctx, "C01.R1", "C03.R11"))
+    ctx.floor("C03.R11", 4, "writes of the ring positions / fill level (same rule as C01.R1)")
     ctx.floor("C03.R8", 2, "consume and produce bodies write only their own position")
     ctx.floor("C03.R1", 8, "callers of full_buffer/slice/slice_mut/window constructors + raw slice + 2 &self->&mut accessors")
     ctx.floor("C03.R2", 2, "BufferReader::new / BufferWriter::new call sites")
